@@ -38,7 +38,7 @@ let handle (toks : string list) : string =
     (match id with Some i -> Hashtbl.replace inv_ids (int_of_string a.(1)) (int_of_n i) | None -> ());
     let w = { W.i_wrapper = n_of_int (int_of_string a.(2)); i_id = id; i_shape = (g "shape" "1" = "1"); i_decodable = (g "dec" "1" = "1");
               i_kp = n_of_int (int_of_string (g "kp" "0")); i_gid = n_of_int (int_of_string (g "gid" "0")); i_state = n_of_int 1;
-              i_epoch = N0; i_data = N0 } in
+              i_epoch = N0; i_data = N0; i_collides = (g "col" "0" = "1") } in
     let (s', r) = W.process_welcome !st w in st := s'; fingerprint (res_name r)
   | "ACCEPT" | "DECLINE" ->
     let id = n_of_int (try Hashtbl.find inv_ids (int_of_string a.(1)) with Not_found -> 999999) in
